@@ -1171,14 +1171,15 @@ def _unroll_const_loops(fn: ast.FunctionDef, log: list[str]) -> bool:
                         rebound_elsewhere |= {id(x) for st_ in other.body for x in ast.walk(st_) if isinstance(x, ast.Name) and x.id == v}
                         rebound_elsewhere.add(id(other.target))
                 outside = {x.id for x in _walk_fn(fn) if isinstance(x, ast.Name) and id(x) not in inner_ids and id(x) not in rebound_elsewhere}
-                if v in outside or (bound & outside):
+                if v in outside:
                     continue
+                carried = bool(bound & outside)   # a loop-carried accumulator (`out = f(out, v)`): plain unrolling, the names keep their identity
                 out = []
                 for k, c in enumerate(lp.iter.elts):
                     body = copy.deepcopy(lp.body)
                     mod = ast.Module(body=body, type_ignores=[])
                     _Subst({v: c}).visit(mod)
-                    if bound:
+                    if bound and not carried:
                         _Rename({b: f"{b}__{k}" for b in bound}).visit(mod)
                     out.extend(mod.body)
                 blk[i - 1:i] = out
